@@ -95,7 +95,7 @@ func expect(tier string) []string {
 	for _, d := range decoders {
 		ex = append(ex, "decoder="+d.name)
 	}
-	ex = append(ex, "history=fresh", "history=constructed-other", "history=decoded-other", "history=same-value")
+	ex = append(ex, "history=fresh", "history=constructed-other", "history=decoded-other", "history=same-value", "writer=json-promoted")
 	for _, s := range streamReaders {
 		ex = append(ex, "stream-reader="+s.name)
 	}
